@@ -276,8 +276,12 @@ def rule_defwrite(ctx: Ctx):
                 if ctor_of_def:
                     continue
             n_w += 1
-            key = (fn.qualname, attr if attr not in ("[...]",) else (tgt.attr if isinstance(tgt, ast.Attribute) else attr))
-            key2 = (fn.qualname, tgt.attr if isinstance(tgt, ast.Attribute) else attr)
+            owner_fn = fn.qualname
+            if ctx.is_new(fn) and fn.cls is not None:
+                # a helper introduced later: triage by the class it lives in (e.g. Listeners.<helper> still records names_not_found)
+                owner_fn = next((k_[0] for k_ in DEFWRITE_OK if k_[0].split(".")[0] == fn.cls.name and k_[1] == attr), fn.qualname)
+            key = (owner_fn, attr if attr not in ("[...]",) else (tgt.attr if isinstance(tgt, ast.Attribute) else attr))
+            key2 = (owner_fn, tgt.attr if isinstance(tgt, ast.Attribute) else attr)
             if key in DEFWRITE_OK or key2 in DEFWRITE_OK:
                 rep.ok("C16.defwrite", fn.loc(n), f"{fn.qualname} writes `{recv}.{attr}` - triaged: {DEFWRITE_OK.get(key) or DEFWRITE_OK.get(key2)}")
                 continue
